@@ -162,6 +162,10 @@ def gen_popon(rng, ncaps=None, rich=True, italic_bias=0.0):
                                  'edm': rng.choice(['inline', 'separate', 'none']),
                                  'enm': True,   # a load always starts by erasing the non-displayed memory
                                  'gap': rng.choice([0, 1, 2, 3, 4, 5, 6, 7, 8, 10, 40, 100, 900])})
+    if ncaps > 1 and rng.random() < 0.25:
+        # Resume Caption Loading is sent before the first load only: the decoder stays in pop-on mode
+        for cap in prog['captions'][1:]:
+            cap['rcl'] = False
     return prog
 
 
@@ -235,7 +239,8 @@ def encode_popon(prog, start_frame=30, min_gap=6):
                 ws.append(E.ctrl(name))
         if cap['enm']:
             ctl('ENM')
-        ctl('RCL')
+        if cap.get('rcl', True):
+            ctl('RCL')        # the decoder stays in pop-on mode: later loads need not repeat it
         for r in cap['rows']:
             ws.extend(encode_row(r, d))
         frame += cap['gap']
